@@ -3,19 +3,27 @@
 Spec: spec/Resave.tla (PART 1: the observable content of a workbook, Norm - what a save may legitimately
 normalise -, single-cell edits, OrigSim / EditLocal as operators; PART 2: a bounded model of memory / file / save /
 load over generations: private string table per save, style interning that reuses cell format 0 and equal entries,
-blank unstyled cells dropped, a row element per row) and spec/Channels.tla (every text channel as writer-op /
-reader-op pair over character sequences; Esc / Unesc are computed, Unesc(Esc(x)) = x is checked).
+blank unstyled cells dropped, a row element per row entry - hidden / custom height / styled, with or without cells -, every
+column entry - hidden / wide / styled) and spec/Channels.tla (every text channel as writer-op / reader-op pair over
+character sequences; Esc / Unesc and, for cell text and cached strings, the ST_Xstring layer XEnc / XDec are computed,
+Unesc(Esc(x)) = x and XDec(XEnc(x)) = x are checked).
 MC_Resave*.cfg: TLC checks FixedPoint, FileFixedPoint, OrigSim (+ the trace specification's way of finding the digest
 of cell format 0), EditLocal, SaveTwiceSame, NormIdempotent on every file of a bounded family; the deviant writer
-that drops styled blank cells must be REFUTED.  MC_Channels*.cfg: the intended configuration is drift-free and
+that drops styled blank cells and the writer that leaves out hidden rows without cells must be REFUTED (leaving out
+default-valued rows without cells satisfies everything).  MC_Channels*.cfg: the intended configuration is drift-free and
 writes only legal XML; the configuration of the tree before commit 5eeb38a (attributes written escaped, read raw)
-and a writer that does not escape must be REFUTED.
+, a writer that does not escape and an ST_Xstring writer that does not protect a literal _xHHHH_ at the very end of a
+text must be REFUTED.
 Conformance: harness/src/bin/resave.rs drives load -> (save -> load) x 3 in memory, a second save of the unchanged
 workbook, and again (save -> load) x 3 after each single-cell edit of the case (random cells and values; thorough: one
 edit per cell class - text, number, boolean, error, rich text, blank, formula, master / member of a shared formula,
 cell with a hyperlink), for every corpus file the library can read (the five largest only in the thorough tier), for workbooks
-generated through the public API with XML-special / non-ASCII text in every text channel, and for foreign files built
-here from the behaviours TLC prints for MC_Resave_replay.cfg.  Every generation logs the full projection through
+generated through the public API with XML-special / non-ASCII text in every text channel and ST_Xstring-relevant cell
+texts, and for foreign files built here (the original of a generated workbook has already been through the library's
+writer, so what a writer defect drops or garbles is not in it): from the behaviours TLC prints for MC_Resave_replay.cfg,
+and files with rows and columns of every kind without cells (hidden, hidden + height, styled, thick, descent, plain) and
+ST_Xstring-relevant texts (literal _xHHHH_ at the start / in the middle / at the end, two in a row, _x005F_, characters
+XML cannot carry) as shared, rich, inline and cached strings.  Every generation logs the full projection through
 public getters; pydec/resave_view.py adds the independent decoder's view of the bytes (part list, string inventory).
 spec/Trace_Resave.tla judges every event with the operators of Resave.tla.
 """
@@ -41,6 +49,33 @@ def _esc(t):
     return t.replace("&", "&amp;").replace("<", "&lt;").replace(">", "&gt;").replace('"', "&quot;")
 
 
+def _xmlchar(ch):
+    o = ord(ch)
+    return o in (9, 10, 13) or 0x20 <= o <= 0xD7FF or 0xE000 <= o <= 0xFFFD or o >= 0x10000
+
+
+_LOOKALIKE = re.compile(r"_x[0-9A-Fa-f]{4}_")
+
+
+def _xenc(t):
+    """ST_Xstring (ECMA-376 Part 1, 22.9.2.19), written from the standard's text: a character XML cannot carry (and
+    a carriage return, which an XML parser would turn into a line feed) becomes _xHHHH_; an underscore that starts a
+    literal _xHHHH_ gets _x005F_ in front"""
+    out = []
+    for i, ch in enumerate(t):
+        if not _xmlchar(ch) or ch == "\r":
+            out.append("_x%04X_" % ord(ch))
+        elif ch == "_" and _LOOKALIKE.match(t, i):
+            out.append("_x005F_")
+        else:
+            out.append(ch)
+    return "".join(out)
+
+
+def _xs(t):
+    return _esc(_xenc(t))
+
+
 def _col(n):
     s = ""
     while n > 0:
@@ -62,7 +97,10 @@ def build_xlsx(f, code_name="", text_map=None, shared_rows=0, rich="", twin=""):
     pivotButton, which the library does not model), cell format 2 is a bold font.  shared_rows = n > 0 puts a shared
     formula into column C of rows 1..n (master C1 with text and ref, the others only with si).  rich = text puts a
     rich-text cell D5 (first half bold, rest plain) into a row of its own; twin = "before" / "after" adds a PLAIN string
-    with the same characters in C5 / E5 (two string items that differ only in kind)."""
+    with the same characters in C5 / E5 (two string items that differ only in kind).
+    Beyond the model: a row may carry hid / thick / desc, a sheet may carry cols [{c, w, hid, xf}], and a cell may be
+    t = "text" (shared string given as text), "rich" (shared string of runs [[text, bold], ..]), "inline" (inlineStr)
+    or "str" (formula `f` with the cached string `text`); texts are written as ST_Xstring."""
     text_map = text_map or {}
     sheets = f["sheets"]
     ct = ['<?xml version="1.0" encoding="UTF-8" standalone="yes"?>',
@@ -100,7 +138,18 @@ def build_xlsx(f, code_name="", text_map=None, shared_rows=0, rich="", twin=""):
         '<xf numFmtId="0" fontId="1" fillId="0" borderId="0" xfId="0" applyFont="1"/></cellXfs>'
         '<cellStyles count="1"><cellStyle name="Normal" xfId="0" builtinId="0"/></cellStyles></styleSheet>')
     sst = [text_map.get(t, t) for t in f["sst"]]
-    items = [f'<si><t xml:space="preserve">{_esc(t)}</t></si>' for t in sst]
+    items = [f'<si><t xml:space="preserve">{_xs(t)}</t></si>' for t in sst]
+    for sh in sheets:                       # shared strings given as text / runs: appended behind the model's table
+        for c in sh["cells"]:
+            if c["t"] == "text":
+                c["_idx"] = len(items)
+                items.append(f'<si><t xml:space="preserve">{_xs(c["text"])}</t></si>')
+            elif c["t"] == "rich":
+                c["_idx"] = len(items)
+                items.append('<si>' + "".join(
+                    (f'<r><rPr><b/><sz val="11"/><rFont val="Calibri"/></rPr><t xml:space="preserve">{_xs(t)}</t></r>' if b else
+                     f'<r><t xml:space="preserve">{_xs(t)}</t></r>') for t, b in c["runs"]) + '</si>')
+    nmodel = len(items)
     if rich:
         h = max(1, len(rich) // 2)
         items.append(f'<si><r><rPr><b/><sz val="11"/><rFont val="Calibri"/></rPr><t xml:space="preserve">{_esc(rich[:h])}</t></r>'
@@ -111,23 +160,49 @@ def build_xlsx(f, code_name="", text_map=None, shared_rows=0, rich="", twin=""):
                                      + "".join(items) + '</sst>')
     for i, sh in enumerate(sheets):
         rows = {r["r"]: r for r in sh["rows"]}
-        out = [f'<?xml version="1.0" encoding="UTF-8" standalone="yes"?><worksheet xmlns="{NS_MAIN}" xmlns:r="{NS_REL}">']
+        out = [f'<?xml version="1.0" encoding="UTF-8" standalone="yes"?><worksheet xmlns="{NS_MAIN}" xmlns:r="{NS_REL}" '
+               'xmlns:mc="http://schemas.openxmlformats.org/markup-compatibility/2006" mc:Ignorable="x14ac" '
+               'xmlns:x14ac="http://schemas.microsoft.com/office/spreadsheetml/2009/9/ac">']
         if code_name:
             out.append(f'<sheetPr codeName="{_esc(code_name)}"/>')
+        if sh.get("cols"):
+            out.append('<cols>')
+            for c in sorted(sh["cols"], key=lambda c: c["c"]):
+                a = f' min="{c["c"]}" max="{c["c"]}" width="{c["w"]}"'
+                if c["w"] != "8.38":
+                    a += ' customWidth="1"'
+                if c["xf"] >= 0:
+                    a += f' style="{c["xf"]}"'
+                if c["hid"]:
+                    a += ' hidden="1"'
+                out.append(f'<col{a}/>')
+            out.append('</cols>')
         out.append('<sheetData>')
         for rn in sorted(rows):
             r = rows[rn]
             attrs = f' r="{rn}"'
-            if r["ht"] != "0":
-                attrs += f' ht="{r["ht"]}" customHeight="1"'
             if r["xf"] >= 0:
                 attrs += f' s="{r["xf"]}" customFormat="1"'
+            if r["ht"] != "0":
+                attrs += f' ht="{r["ht"]}" customHeight="1"'
+            if r.get("hid"):
+                attrs += ' hidden="1"'
+            if r.get("thick"):
+                attrs += ' thickBot="1"'
+            if r.get("desc"):
+                attrs += f' x14ac:dyDescent="{r["desc"]}"'
             out.append(f'<row{attrs}>')
             for c in sorted((c for c in sh["cells"] if c["r"] == rn), key=lambda c: c["c"]):
                 a = f' r="{_col(c["c"])}{rn}"'
                 if c["xf"] >= 0:
                     a += f' s="{c["xf"]}"'
-                if c["t"] == "s":
+                if c["t"] in ("text", "rich"):
+                    out.append(f'<c{a} t="s"><v>{c["_idx"]}</v></c>')
+                elif c["t"] == "inline":
+                    out.append(f'<c{a} t="inlineStr"><is><t xml:space="preserve">{_xs(c["text"])}</t></is></c>')
+                elif c["t"] == "str":
+                    out.append(f'<c{a} t="str"><f>{_esc(c["f"])}</f><v xml:space="preserve">{_xs(c["text"])}</v></c>')
+                elif c["t"] == "s":
                     out.append(f'<c{a} t="s"><v>{c["v"] - 1}</v></c>')
                 elif c["t"] == "n":
                     out.append(f'<c{a}><v>{c["v"]}</v></c>')
@@ -138,11 +213,11 @@ def build_xlsx(f, code_name="", text_map=None, shared_rows=0, rich="", twin=""):
                            f'<c r="C{rn}"><f t="shared" si="0"/><v>{rn}</v></c>')
             out.append('</row>')
         if rich and i == 0:
-            row5 = [f'<c r="D5" t="s"><v>{len(sst)}</v></c>']
+            row5 = [f'<c r="D5" t="s"><v>{nmodel}</v></c>']
             if twin == "before":
-                row5.insert(0, f'<c r="C5" t="s"><v>{len(sst) + 1}</v></c>')
+                row5.insert(0, f'<c r="C5" t="s"><v>{nmodel + 1}</v></c>')
             elif twin == "after":
-                row5.append(f'<c r="E5" t="s"><v>{len(sst) + 1}</v></c>')
+                row5.append(f'<c r="E5" t="s"><v>{nmodel + 1}</v></c>')
             out.append('<row r="5">' + "".join(row5) + '</row>')
         out.append('</sheetData></worksheet>')
         parts[f"xl/worksheets/sheet{i + 1}.xml"] = "".join(out)
@@ -195,6 +270,84 @@ FORMULAS = ["A1&\"<&>\"", "IF(A1<B1,\"<\",\">\")", "\"a&b\"&\"it's\"", "SUM(A1:B
 COLS = ["A", "B", "C", "D", "E", "F", "G", "Z", "AA"]
 
 
+# ST_Xstring-relevant texts (cell text, shared strings, rich-text runs, cached strings of formulas): literal _xHHHH_
+# look-alikes at the start, in the middle and AT THE END of a text, two in a row, the literal _x005F_, near misses,
+# characters XML cannot carry, and mixtures
+XS_TEXTS = ["_x0041_", "_x0041_ at the start", "mid_x0041_dle", "REG_x0041_", "_x000D_", "_x000d_", "a_x005F_x0042_", "_x005F_",
+            "x_x005F_", "_x0041__x0042_", "__x0041_", "_x0041__", "two_x0041__x000A_", "tail_x0041", "_x41_", "_xZZZZ_", "_x00410_",
+            "_", "__", "_x", "a\u0001b", "\u0008", "bell\u0007 end", "tab\tnl\ncr\rend", "_x0041_\u0001_x005F_", "\u001f_x001F_",
+            "\ufffe edge \uffff", "caf\u00e9_x00E9_", "\U0001F600_xD83D_", "end with cr\r", "_x0041_\u0002"]
+
+
+def rand_foreign(rng, k):
+    """A foreign file beyond the bounded model: rows and columns of every kind WITHOUT cells (hidden + empty, hidden +
+    height, styled, thick bottom, descent, plain), the same with cells, and string cells in every encoding (shared
+    plain, shared rich runs, inline, cached string of a formula) carrying ST_Xstring-relevant texts."""
+    rows, cells, cols = {}, [], []
+    kinds = [dict(ht="0", hid=True, xf=-1), dict(ht="20", hid=True, xf=-1), dict(ht="0", hid=False, xf=2), dict(ht="0", hid=False, xf=-1),
+             dict(ht="33.5", hid=False, xf=-1), dict(ht="0", hid=True, xf=2), dict(ht="0", hid=False, xf=-1, thick=True),
+             dict(ht="0", hid=False, xf=-1, desc="0.25"), dict(ht="0", hid=False, xf=1)]
+    rn = 0
+    for kd in rng.sample(kinds, rng.randint(3, len(kinds))) + [kinds[0], kinds[2]]:
+        rn += rng.randint(1, 3)
+        rows[rn] = dict(kd, r=rn)
+        if rng.random() < 0.4:                                   # the same kind of row, holding cells
+            texts = rng.sample(XS_TEXTS, 3) + [rng.choice(TEXTS)]
+            for ci, t in enumerate(texts):
+                enc = rng.choice(["text", "rich", "inline", "str"])
+                c = {"r": rn, "c": ci + 1, "t": enc, "v": "", "f": "", "xf": rng.choice([-1, -1, 1, 2]), "text": t}
+                if enc == "rich":
+                    if len(t) < 2:
+                        c["t"] = "text"
+                    else:
+                        h = rng.randint(1, len(t) - 1)
+                        c["runs"] = [[t[:h], True], [t[h:], False]]
+                elif enc == "str":
+                    c["f"] = rng.choice(["A1&B1", "\"x\"&\"y\"", "T(A1)"])
+                elif enc == "inline" and (t.strip() != t or t in ("123", "1e5", "TRUE")):
+                    c["t"] = "text"                     # (inline strings go through value guessing in the reader: C03's matter)
+                cells.append(c)
+    for cn, kd in zip(rng.sample(range(1, 12), 5), rng.sample(
+            [dict(w="8.38", hid=True, xf=-1), dict(w="12.5", hid=True, xf=-1), dict(w="8.38", hid=False, xf=2), dict(w="8.38", hid=False, xf=-1),
+             dict(w="30", hid=False, xf=-1), dict(w="8.38", hid=True, xf=2)], 5)):
+        cols.append(dict(kd, c=cn))
+    f = {"x0": rng.choice(["X0", "L0"]), "xfs": ["X0", "S1"], "sst": ["a", "a&b"], "extra": [], "rid": "o",
+         "sheets": [{"cells": cells, "rows": list(rows.values()), "cols": cols}]}
+    edits = [rand_edit(rng)]
+    if cells:
+        edits.append({"si": 0, "mode": "existing", "pick": rng.randint(0, 99), "r": 1, "c": 1, "k": "text", "v": rng.choice(XS_TEXTS), "b": ""})
+    return {"src": {"kind": "hex", "hex": build_xlsx(f).hex(), "name": f"foreign-{k}"}, "gens": 3, "light": rng.random() < 0.3,
+            "edit": edits, "family": "foreign"}
+
+
+def foreign_fixture():
+    """always part of the run: every kind of row and column without cells, and every ST_Xstring-relevant text in every
+    string encoding"""
+    rows = [dict(r=1, ht="0", hid=False, xf=-1), dict(r=2, ht="0", hid=True, xf=-1), dict(r=3, ht="20", hid=True, xf=-1),
+            dict(r=4, ht="0", hid=False, xf=2), dict(r=5, ht="0", hid=True, xf=2), dict(r=6, ht="0", hid=False, xf=-1, thick=True),
+            dict(r=7, ht="0", hid=False, xf=-1, desc="0.25"), dict(r=8, ht="18", hid=False, xf=-1), dict(r=9, ht="0", hid=True, xf=-1)]
+    cells = [{"r": 9, "c": 1, "t": "text", "v": "", "f": "", "xf": -1, "text": "in a hidden row"}]
+    for k, t in enumerate(XS_TEXTS):
+        rn = 11 + k
+        rows.append(dict(r=rn, ht="0", hid=False, xf=-1))
+        cells.append({"r": rn, "c": 1, "t": "text", "v": "", "f": "", "xf": -1, "text": t})
+        if len(t) >= 2:
+            cells.append({"r": rn, "c": 2, "t": "rich", "v": "", "f": "", "xf": -1, "text": t, "runs": [[t[:1], True], [t[1:], False]]})
+            cells.append({"r": rn, "c": 3, "t": "rich", "v": "", "f": "", "xf": -1, "text": "x" + t, "runs": [["x", False], [t, True]]})
+        if t.strip() == t:
+            cells.append({"r": rn, "c": 4, "t": "inline", "v": "", "f": "", "xf": -1, "text": t})
+        cells.append({"r": rn, "c": 5, "t": "str", "v": "", "f": "A1&B1", "xf": -1, "text": t})
+    cols = [dict(c=2, w="8.38", hid=True, xf=-1), dict(c=7, w="8.38", hid=False, xf=-1), dict(c=8, w="8.38", hid=True, xf=-1),
+            dict(c=9, w="14.5", hid=True, xf=-1), dict(c=10, w="8.38", hid=False, xf=2), dict(c=11, w="8.38", hid=True, xf=2),
+            dict(c=12, w="22", hid=False, xf=-1)]
+    f = {"x0": "X0", "xfs": ["X0", "S1"], "sst": ["a", "a&b"], "extra": [], "rid": "o",
+         "sheets": [{"cells": cells, "rows": rows, "cols": cols}]}
+    edits = [{"si": 0, "mode": "at", "pick": 0, "r": 50, "c": 3, "k": "text", "v": t, "b": ""} for t in ("REG_x0041_", "_x000D_", "a_x005F_x0042_")]
+    edits.append({"si": 0, "mode": "at", "pick": 0, "r": 51, "c": 3, "k": "formula", "v": "A1&B1", "b": "", "cached": "cached_x0041_"})
+    return {"src": {"kind": "hex", "hex": build_xlsx(f).hex(), "name": "foreign-fixture"}, "gens": 3, "light": False, "edit": edits,
+            "family": "foreign"}
+
+
 def quote_sheet(n):
     return "'" + n.replace("'", "''") + "'"
 
@@ -228,6 +381,9 @@ def rand_wb(rng, size):
     def text():
         return fmt(rng.choice(TEXTS) + (" {n}" if rng.random() < 0.5 else ""))
 
+    def celltext():                      # cell text, rich-text runs, cached strings: also the ST_Xstring-relevant texts
+        return rng.choice(XS_TEXTS) if rng.random() < 0.35 else text()
+
     sheets = []
     for si in range(ns):
         cells, used = [], set()
@@ -239,7 +395,7 @@ def rand_wb(rng, size):
             k = rng.choice(["text", "text", "text", "num", "bool", "err", "rich", "blank"])
             cell = {"r": r, "c": c, "k": k, "v": "", "b": "", "f": ""}
             if k == "text":
-                cell["v"] = text()
+                cell["v"] = celltext()
             elif k == "num":
                 cell["b"] = bits(rng.choice([0.0, 1.5, -2.25, 1e300, 123456789.125, 0.1 + 0.2, 42.0]))
             elif k == "bool":
@@ -247,7 +403,8 @@ def rand_wb(rng, size):
             elif k == "err":
                 cell["v"] = rng.choice(["#N/A", "#DIV/0!", "#REF!"])
             elif k == "rich":
-                cell["runs"] = [[text(), True], [" & <tail> " + text(), False]]
+                cell["runs"] = [[celltext(), True], [" & <tail> " + text(), False]] if rng.random() < 0.6 else \
+                    [[text(), False], [rng.choice(XS_TEXTS), True]]          # a look-alike at the end of the last run
             if k in ("text", "num") and rng.random() < 0.25:
                 cell["f"] = rng.choice(FORMULAS)
             if k == "blank" or rng.random() < 0.5:
@@ -259,16 +416,22 @@ def rand_wb(rng, size):
               "cfs": [], "tables": []}
         if rng.random() < 0.2:
             sh["state"] = "hidden" if si > 0 else ""
-        for r in rng.sample(range(1, 40), rng.randint(0, 3)):
-            row = {"r": r, "ht": rng.choice(["", "20.25", "33"]), "hid": rng.random() < 0.2}
-            if rng.random() < 0.4:
-                row["sty"] = rand_style(rng)
-            sh["rows"].append(row)
-        for c in rng.sample(range(1, 14), rng.randint(0, 3)):
-            col = {"c": c, "w": rng.choice(["", "12.5", "30"]), "hid": rng.random() < 0.2}
-            if rng.random() < 0.4:
-                col["sty"] = rand_style(rng)
-            sh["cols"].append(col)
+        # rows and columns of every kind, most of them without cells (rows 31..60 hold at most hyperlink cells):
+        # hidden + empty, hidden + height, hidden + (maybe) cells, styled empty, plain empty
+        for r, kd in zip(rng.sample(range(1, 60), 6), [("", True, False), ("20.25", True, False), ("", True, True), ("", False, True),
+                                                      ("", False, False), ("33", False, rng.random() < 0.4)]):
+            if rng.random() < 0.7:
+                row = {"r": r, "ht": kd[0], "hid": kd[1]}
+                if kd[2]:
+                    row["sty"] = rand_style(rng) or {"fill": "FF123456"}
+                sh["rows"].append(row)
+        for c, kd in zip(rng.sample(range(1, 30), 6), [("", True, False), ("12.5", True, False), ("", True, True), ("", False, True),
+                                                      ("", False, False), ("30", False, rng.random() < 0.4)]):
+            if rng.random() < 0.7:
+                col = {"c": c, "w": kd[0], "hid": kd[1]}
+                if kd[2]:
+                    col["sty"] = rand_style(rng) or {"fill": "FF123456"}
+                sh["cols"].append(col)
         for k in range(rng.randint(0, 2)):
             sh["merges"].append(f"K{2 * k + 1}:M{2 * k + 2}")
         lcells = set()
@@ -330,13 +493,14 @@ def rand_edit(rng, ncells_hint=50):
           "r": rng.choice([1, 2, 7, 100, rng.randint(1, 200)]), "c": rng.choice([1, 2, 5, 30, rng.randint(1, 40)]),
           "k": k, "v": "", "b": ""}
     if k == "text":
-        ed["v"] = rng.choice(TEXTS)
+        ed["v"] = rng.choice(XS_TEXTS) if rng.random() < 0.4 else rng.choice(TEXTS)
     elif k == "num":
         ed["b"] = bits(rng.choice([7.0, -0.5, 1e21, 3.141592653589793]))
     elif k == "bool":
         ed["v"] = rng.choice(["TRUE", "FALSE"])
     else:
         ed["v"] = rng.choice(["A1+1", "\"a&b\"&\"<\"", "SUM(A1:A3)"])
+        ed["cached"] = rng.choice(XS_TEXTS + ["cached"])
     return ed
 
 
@@ -528,7 +692,11 @@ def gen_cases(chk):
                       "edit": [rand_edit(rng), rng.choice(echo_edits(rng, 3))] if quick
                       else [rand_edit(rng)] + rng.sample(class_edits(rng, 3), 2) + rng.sample(echo_edits(rng, 3), 2),
                       "family": "generated"})
-    chk.extra["cases"] = {"corpus_files": ncor, "of_which_large": len(big), "tlc_model_files": ntlc, "of_all_tlc_behaviours": total, "generated_workbooks": ngen,
+    nfor = 80 if quick else 1500
+    cases.append(foreign_fixture())
+    for k in range(nfor):
+        cases.append(rand_foreign(rng, k))
+    chk.extra["cases"] = {"foreign_files_rows_columns_xstring": nfor + 1, "corpus_files": ncor, "of_which_large": len(big), "tlc_model_files": ntlc, "of_all_tlc_behaviours": total, "generated_workbooks": ngen,
                           "fixtures": 7}
     for i, c in enumerate(cases + big):
         c["case"] = i
@@ -642,14 +810,25 @@ def expect_refuted(chk, module, cfg, invariant, what):
 
 def run(chk):
     quick = chk.tier == "quick"
-    r = vlib.tlc_mc("MC_Resave", "MC_Resave.cfg" if quick else "MC_Resave_thorough.cfg", workers=4, check=chk, timeout=7200, heap="8g")
-    if r is not None and (taken(r, "MCEdit") == 0 or taken(r, "MCResave") == 0):
-        raise vlib.ToolError("vacuous model checking run: MCEdit / MCResave never taken")
+    # quick: 32 cell sets x {foreign, library-made} x (base file + every single deviation of the other features); thorough:
+    # 128 cell sets x single deviations, and 32 cell sets x every pair of deviations
+    for cfg in (["MC_Resave.cfg"] if quick else ["MC_Resave_thorough.cfg", "MC_Resave_thorough2.cfg"]):
+        r = vlib.tlc_mc("MC_Resave", cfg, workers=4, check=chk, timeout=7200, heap="8g")
+        if r is not None and (taken(r, "MCEdit") == 0 or taken(r, "MCResave") == 0):
+            raise vlib.ToolError("vacuous model checking run: MCEdit / MCResave never taken")
+    # a writer that leaves out the <row> of a row without cells whose attributes all have their default value satisfies
+    # every property (Norm does not count such an entry as content) ...
+    vlib.tlc_mc("MC_Resave", "MC_Resave_rowskip.cfg", workers=4, check=chk, timeout=7200)
     r = vlib.tlc_mc("MC_Channels", "MC_Channels.cfg", workers=4, check=chk)
     if r is not None and taken(r, "SaveLoad") == 0:
         raise vlib.ToolError("vacuous model checking run: SaveLoad of Channels never taken")
     if not os.environ.get("VERIF_DEBUG_SKIP_MC"):
         expect_refuted(chk, "MC_Resave", "MC_Resave_deviant.cfg", "OrigSim", "the writer that drops styled blank cells")
+        # ... the one whose test for "nothing of its own" forgets `hidden` does not
+        expect_refuted(chk, "MC_Resave", "MC_Resave_deviant_hidden.cfg", "OrigSim",
+                       "the writer that skips rows without cells, height and style although they are hidden")
+        expect_refuted(chk, "MC_Channels", "MC_Channels_xstring_deviant.cfg", "DriftFree",
+                       "an ST_Xstring writer that does not protect a literal _xHHHH_ at the very end of a text")
         expect_refuted(chk, "MC_Channels", "MC_Channels_deviant.cfg", "DriftFree",
                        "the configuration 'write Esc, read Id' of the tree before commit 5eeb38a")
         expect_refuted(chk, "MC_Channels", "MC_Channels_rawwriter.cfg", "WrittenSafe", "a writer that does not escape")
@@ -668,6 +847,38 @@ def run(chk):
     if missing:
         raise vlib.ToolError("text channels never exercised with an XML-special character: " + ", ".join(missing))
     chk.extra["channels_exercised_distinct_special_texts"] = {c: len(v) for c, v in seen.items()}
+    # measurement: rows / columns without cells and ST_Xstring-relevant texts in the ORIGINALS the library loaded from
+    # files it did not write (vacuity guard)
+    stat = {"hidden_rows_without_cells": 0, "hidden_rows_with_cells": 0, "styled_rows_without_cells": 0, "plain_rows_without_cells": 0,
+            "hidden_columns": 0, "styled_columns": 0, "texts_ending_in_lookalike": 0, "texts_with_lookalike_elsewhere": 0,
+            "texts_with_control_character": 0, "cached_strings_with_lookalike": 0, "rich_texts_with_lookalike": 0}
+    for ci, evs in enumerate(events):
+        if cases[ci]["src"]["kind"] != "hex" or not evs or evs[0].get("outcome") != "ok":
+            continue
+        obs = evs[0]["obs"]
+        for sh in obs["sheets"]:
+            used = {c["r"] for c in sh["cells"]}
+            for r in sh["rows"]:
+                styled = r["s"] != obs["plain"]
+                if r["hid"]:
+                    stat["hidden_rows_with_cells" if r["r"] in used else "hidden_rows_without_cells"] += 1
+                elif r["r"] not in used:
+                    stat["styled_rows_without_cells" if styled else "plain_rows_without_cells"] += 1
+            for c in sh["cols"]:
+                stat["hidden_columns"] += 1 if c["hid"] else 0
+                stat["styled_columns"] += 1 if c["s"] != obs["plain"] else 0
+            for c in sh["cells"]:
+                if c["k"] not in ("text", "rich"):
+                    continue
+                la = _LOOKALIKE.search(c["v"]) is not None
+                stat["texts_ending_in_lookalike"] += 1 if re.search(r"_x[0-9A-Fa-f]{4}_$", c["v"]) else 0
+                stat["texts_with_lookalike_elsewhere"] += 1 if re.search(r"_x[0-9A-Fa-f]{4}_.", c["v"], re.S) else 0
+                stat["texts_with_control_character"] += 1 if any(not _xmlchar(ch) for ch in c["v"]) else 0
+                stat["cached_strings_with_lookalike"] += 1 if la and c["f"] else 0
+                stat["rich_texts_with_lookalike"] += 1 if la and c["k"] == "rich" else 0
+    if not all(stat.values()):
+        raise vlib.ToolError("foreign files never exercised: " + ", ".join(k for k, v in stat.items() if not v))
+    chk.extra["foreign_originals_exercised"] = stat
     # measurement: the echo edits that found a string cell to repeat (vacuity guard: every variant at least once)
     applied = {f"{e}/{w}": 0 for e, w in ECHOES}
     for ci, evs in enumerate(events):
@@ -691,7 +902,8 @@ def run(chk):
     keys.update(n + " (large)" for n in bigok)
     chk.nontrivial = keys
     chk.rule = ("a case is one original file (corpus file / workbook generated through the public API with XML-special and "
-                "non-ASCII text in every text channel / foreign file built from a TLC behaviour of MC_Resave) driven through load, "
+                "non-ASCII text in every text channel / foreign file built here: from a TLC behaviour of MC_Resave, or with rows and "
+                "columns of every kind without cells and ST_Xstring-relevant texts in every string encoding) driven through load, "
                 "3 x (save, load), a second save of the unchanged workbook, and for each single-cell edit again 3 x (save, load); "
                 "distinct = different (file, edits, writer); non-trivial = the library could read the file and at least two "
                 "generations were recorded")
